@@ -253,6 +253,17 @@ def run_config(fn, params, cfg_key, seed=0, tier="quick", options=None, max_path
         e.pop("phash", None)
     for e in res["violations"]:
         e.pop("phash", None)
+    if res["engine_errors"] and not res["paths"]:
+        # the code under test left the encodable fragment (no symbolic path completed). No 'holds' verdict is possible,
+        # but the concrete run of the same harness on the real code is still a replayed execution: an obligation it
+        # violates is a genuine counterexample and is reported as such (the engine error is kept as well).
+        # no symbolic corroboration here, so rounding must not be mistaken for a violation: judge at a loose tolerance
+        FBl, _ = run_float(fn, params, cfg_key, seed, rtol=max(1e-5, opts.get("float_rtol", 1e-8)), tier=tier)
+        for o in FBl.obligations:
+            if o.status in ("violated", "failed-concrete"):
+                res["violations"].append({"obligation": o.name, "status": o.status, "detail": f"concrete run on the real code (symbolic encoding unavailable: {res['engine_errors'][0][:120]}): {o.detail}", "path": [], "witnessed": True, "confirmed": True, "float_detail": o.detail, "concrete_only": True})
+        if ferr is not None and " at " in ferr:
+            res["violations"].append({"obligation": "harness:unexpected-exception", "detail": f"concrete run on the real code (symbolic encoding unavailable): {ferr}", "path": [], "confirmed": True, "concrete_only": True})
     if ferr is not None and not any(v["obligation"] == "harness:unexpected-exception" for v in res["violations"]):
         if res["paths"] and not res["engine_errors"]:
             res["engine_errors"].append(f"float run raised {ferr} but no symbolic path did")
